@@ -982,13 +982,20 @@ class SQLCache(CacheMixin):
             metadata = json.dumps(metadata)
 
             self._available_keys = None
+            state_data = None
             if self.delete_before_insert:
+                # Keep the data of an existing entry: only its metadata is being replaced
+                c = self.connection.cursor()
+                c.execute(f"SELECT state_data FROM {self.table} WHERE query=?", [key])
+                row = c.fetchone()
+                if row is not None:
+                    state_data = row[0]
                 self.connection.execute(
                     f"DELETE FROM {self.table} WHERE query=?", [key]
                 )
             self.connection.execute(
                 f"INSERT INTO {self.table} (query, metadata, state_data) VALUES (?, ?, ?)",
-                [key, metadata, None],
+                [key, metadata, state_data],
             )
             self.connection.commit()
             return True
